@@ -107,6 +107,23 @@ def _solve_layouts(r, cop, y, v, sig, case, fam, th):
                         f'refilled in place with permuted values and evaluated again do not give the element-wise roots', case=case)
     except Exception as e:
         r.violation(f'{sig}:vector-raises:{type(e).__name__}:refilled', f'{fam} theta={th}: refilled input raised {e}', case=case)
+    # a returned result is a value: a LATER call on the same copula must not rewrite it (no shared output buffer); and the
+    # documented shortcut ppf(y, v) is percent_point(y, v)
+    r.tr(3)
+    try:
+        first = cop.percent_point(y.copy(), v.copy())
+        kept = np.array(first, float)
+        cop.percent_point(y[perm][: max(1, n // 2)].copy(), v[perm][: max(1, n // 2)].copy())
+        rewritten = not np.array_equal(np.asarray(first, float), kept, equal_nan=True)
+        short = np.asarray(cop.ppf(y.copy(), v.copy()), float)
+        r.ev(2 * n)
+        if rewritten:
+            r.violation(f'{sig}:result-rewritten-by-later-call', f'{fam} theta={th}: the array returned by percent_point changed '
+                        f'when percent_point was called again on the same copula', case=case)
+        if short.shape != (n,) or not np.all(np.abs(short - solo) <= 1e-12):
+            r.violation(f'{sig}:shortcut:ppf', f'{fam} theta={th}: ppf(y, v) differs from percent_point(y, v)', case=case)
+    except Exception as e:
+        r.violation(f'{sig}:vector-raises:{type(e).__name__}:repeat', f'{fam} theta={th}: repeated call raised {e}', case=case)
     # the same vectors handed over as pandas Series whose index labels are a permutation of 0..n-1 (positional meaning)
     import pandas as pd
     lab = np.argsort((np.arange(n) * 104729) % n, kind='stable')
